@@ -38,10 +38,27 @@ RULE = ("(1) inversions: imaging datasets on random masks (densities 0.15-0.9, s
         "objects, then the first dataset again; DatasetInterface with the noise map scaled by arithmetic and the stale w_tilde "
         "(InversionException expected from the w-tilde class, normal equations of the scaled noise from the mapping class); a dataset "
         "derived by a second apply_mask; a dataset derived by apply_over_sampling; every inversion judged (KInvW) on the values read from "
-        "the dataset actually passed in at that moment. (3) every anchored util function called directly on synthetic inputs (random sparse "
+        "the dataset actually passed in at that moment; further steps: the parts of the dataset as DERIVED structures (copy, deepcopy, * 1.0, + 0.0, "
+        "-(-a), .native.slim, .slim of a natively stored array) through a DatasetInterface; calls WITHOUT settings / preloads (the shared "
+        "default objects of the signatures) through the factory and through both classes on the first dataset, a second one, the first again. "
+        "(4) kinds: the same VALUES as other KINDS of input at the class layer -- data / noise map / psf integer-typed, float32, nested "
+        "lists, Fortran-ordered, strided views; basis functions and operated overrides integer-typed / float32 / Fortran / views -- along "
+        "other CONSTRUCTOR PATHS (Imaging from already-masked arrays, apply_mask after another mask, DatasetInterface), with trivial "
+        "SUBCLASSES of Imaging, Array2D, Kernel2D, the mappers, the function list, SettingsInversion, Preloads, DatasetInterface, a psf whose "
+        "pixel scales differ from the data's, the interferometer-only settings switched on, frames as small as the kernel permits (one "
+        "admissible row / column), through aa.Inversion (keywords / positional / with an empty Preloads), factory.inversion_imaging_from "
+        "and both classes constructed directly; judged exactly on the descriptor's values; per formalism the per-object dictionaries for an "
+        "injected reconstruction of odd eighths (mapped_reconstructed_data_dict[obj_i] = the model with r restricted to object i, keys "
+        "in object order, mapped_reconstructed_data / _image = their sum, reconstruction_dict, data_subtracted_dict). (5) preld: the "
+        "branches that take a quantity from the Preloads object (operated_mapping_matrix; curvature_matrix; the two function-list "
+        "dictionaries; mapper_operated_mapping_matrix_dict + data_vector_mapper + curvature_matrix_mapper_diag with the same mappers and "
+        "OTHER function lists), filled from a first inversion as the library does: the result is still the normal equations of the "
+        "objects passed in, curvature_reg_matrix never reaches the preloaded arrays, a second instance with the same Preloads object "
+        "returns the same. Around EVERY case the shared default argument objects of the anchored signatures are fingerprinted. (3) every anchored util function called directly on synthetic inputs (random sparse "
         "encodings with filler entries, random upper-triangular preloads, asymmetric matrices for the mirror, duplicate indices for the "
-        "diagonal term). Non-trivial = at least 2 unmasked pixels and a kernel with more than one non-zero entry (inversion cases) / any "
-        "session or util case; distinct = distinct JSON input.")
+        "diagonal term); every array argument handed over as a random kind (integer-typed where integral -- every other round all "
+        "matrices integral and integer-typed --, int32 indices, Fortran-ordered, strided view), READ-ONLY and fingerprinted. Non-trivial = at least 2 unmasked pixels and a kernel with more than one non-zero entry (inversion and kinds cases) / any "
+        "session, preload or util case; distinct = distinct JSON input.")
 EXHAUSTIVE = {}
 TRUSTED = ["hand-written Gallina model coq/Model/C04.v (scatter loops, sequential symmetrisation / mirror / block assignments, running-index "
            "walk of the preload, param ranges by running count, the w_tilde object handed over separately with check_noise_map, the factory's "
@@ -61,7 +78,11 @@ ASSUMPTIONS = ["real arithmetic (no rounding): theorems over R; correspondence e
                "kernel footprint of every unmasked pixel inside the frame (the property's quantifier); positive noise on unmasked pixels",
                "a w_tilde object handed over separately comes from an Imaging with the same mask, psf and noise map (a stale object that passes "
                "the first-value test of check_noise_map is the caller's error: no claim); linear objects pairwise distinct",
-               "of the Preloads object only w_tilde and use_w_tilde are exercised here (the other fields are C15's)"]
+               "Preloads: w_tilde / use_w_tilde in the sessions; the linear-algebra fields (operated_mapping_matrix, curvature_matrix, the "
+               "function-list dictionaries, the mapper-only triple) only with values taken from a first inversion on the same dataset with "
+               "the same mappers (what Preloads.set_* establish: when to preload is C15's); the w-tilde class writes the function lists' "
+               "blocks into the preloaded data_vector_mapper array (not fingerprinted: its mapper blocks are what is judged)",
+               "data / noise map stored natively (store_native=True) are refused by both classes (ValueError): outside the domain"]
 
 PSF_SHAPES = [(1, 1), (1, 3), (3, 1), (3, 3), (3, 3), (3, 5), (5, 3), (1, 5), (5, 1), (5, 5), (1, 7), (7, 1)]
 NOISE = [Fraction(1, 2), Fraction(1), Fraction(2), Fraction(4)]
@@ -156,18 +177,21 @@ def rand_kernel(rng, kh, kw, mode=None):
 GEOMS = [None, None, None, {"ps": ["2", "1/2"], "origin": ["3/4", "-5/4"]}, {"ps": ["1/4", "1/4"], "origin": ["0", "0"]},
          {"ps": ["1/2", "2"], "origin": ["-1/2", "3"]}]
 MASK_STYLES = ["random", "random", "random", "single", "ring", "full", "line", "corners", "pair", "pair", "checker", "diag"]
-def rand_dataset(rng, maxpix, ext=None, geom=None):
-    """ext: None | 'data_tiny' | 'data_huge' | 'noise_tiny' | 'noise_huge' | 'noise_spread' | 'psf_tiny' | 'psf_huge' | 'zero_data' |
+def rand_dataset(rng, maxpix, ext=None, geom=None, tight=None, noise_choices=None):
+    """tight: None | 'h' | 'w' -- the frame is as small as the kernel permits along that axis (ONE admissible row / column: a
+    size-1 dimension of the region where pixels may be unmasked).  ext: None | 'data_tiny' | 'data_huge' | 'noise_tiny' | 'noise_huge' | 'noise_spread' | 'psf_tiny' | 'psf_huge' | 'zero_data' |
     'flat' (equal noise, symmetric kernel, full block: exact ties).  Every factor is a power of two."""
     kh, kw = rng.choice(PSF_SHAPES)
     H = rng.randint(kh + 1, min(10, kh + 5)); W = rng.randint(kw + 1, min(10, kw + 5))
+    if tight == "h": H = kh
+    if tight == "w": W = kw
     m = rand_mask(rng, H, W, kh, kw, "full" if ext == "flat" else rng.choice(MASK_STYLES), maxpix)
     K = rand_kernel(rng, kh, kw, "symmetric" if ext == "flat" else None)
     fd = {"data_tiny": Fraction(1, 2 ** 30), "data_huge": Fraction(2 ** 30), "zero_data": Fraction(0)}.get(ext, Fraction(1))
     fs = {"noise_tiny": Fraction(1, 2 ** 20), "noise_huge": Fraction(2 ** 20)}.get(ext, Fraction(1))
     fk = {"psf_tiny": Fraction(1, 2 ** 20), "psf_huge": Fraction(2 ** 20)}.get(ext, Fraction(1))
     data = [[S(rng.randint(-9, 9) * fd) for _ in range(W)] for _ in range(H)]
-    noise = [[S(rng.choice(NOISE) * fs) for _ in range(W)] for _ in range(H)]
+    noise = [[S(rng.choice(noise_choices or NOISE) * fs) for _ in range(W)] for _ in range(H)]
     if ext == "noise_spread": noise = [[S(Fraction(2) ** rng.choice([-8, -1, 0, 3, 8])) for _ in range(W)] for _ in range(H)]
     if ext == "flat": noise = [[S(Fraction(2)) for _ in range(W)] for _ in range(H)]
     ds = {"m": m, "K": [[S(v * fk) for v in r] for r in K], "data": data, "noise": noise}
@@ -225,7 +249,7 @@ def synth_preload(rng, n):
 
 EXTS_DS = ["psf_tiny", "data_tiny", "noise_huge", "noise_tiny", "psf_huge", "data_huge", "noise_spread", "zero_data", "flat", "psf_tiny"]
 EXTS_COL = ["tiny", "huge", "zero", "neg"]
-SESS_STEPS = ["objs2", "iface", "preload", "edit_data", "edit_func", "ds2", "iface_noise0", "remask", "oversampling"]
+SESS_STEPS = ["objs2", "iface", "preload", "edit_data", "edit_func", "ds2", "iface_noise0", "remask", "oversampling", "defaults", "derived"]
 
 def n_unmasked(ds): return sum(1 for r in ds["m"] for b in r if not b)
 
@@ -248,6 +272,8 @@ def gen_inputs(tier, rng):
     n_sess = 45 if thorough else 9
     n_util = 40 if thorough else 6
     maxpix = 20 if thorough else 14
+    n_kind = 36 if thorough else 12
+    n_preld = 18 if thorough else 4
     for i in range(n_inv):
         # every third case carries one extreme: a dataset-level one (power-of-two factors, zero data, exact ties) or a column-level
         # one (a basis column scaled by 2^-20 / 2^20 / zero / negative throughout); geometry: anisotropic pixel scales, shifted origin
@@ -268,6 +294,7 @@ def gen_inputs(tier, rng):
         if i % 7 == 0: objs = [rand_obj(rng, n, "func") for _ in range(nobj)]          # factory: all function lists
         if i % 7 == 1: objs = [rand_obj(rng, n, rng.choice(["rect", "delaunay"])) for _ in range(max(2, nobj))]   # several mappers
         if i % 7 == 2: objs = [rand_obj(rng, n, "func"), rand_obj(rng, n, "rect"), rand_obj(rng, n, "func")][:max(2, nobj)]
+        if i % 7 == 3: objs = [rand_obj(rng, n, rng.choice(["rect", "delaunay"])), rand_obj(rng, n, "func"), rand_obj(rng, n, "rect")]   # a function list BETWEEN two mappers
         if colext:      # a function list with the extreme column, before AND after a mapper (negative cross blocks on both sides)
             objs = [rand_obj(rng, n, "func", colext), rand_obj(rng, n, rng.choice(["rect", "rect", "delaunay"])), rand_obj(rng, n, "func", colext)][:rng.choice([2, 3])]
             if rng.random() < 0.5: objs.reverse()
@@ -303,10 +330,57 @@ def gen_inputs(tier, rng):
         yield {"op": "sess", "ds": ds, "ds2": ds2, "objs": objs, "objs2": objs2, "steps": steps,
                "d2": [rng.randint(-9, 9) for _ in range(n)], "d3": [[S(rng.randint(-9, 9)) for _ in range(W)] for _ in range(H)],
                "eps": rng.choice(["1/1024", "1/2"]), "rseed": rng.randrange(10 ** 6)}
+    # input kinds / constructor paths / subclasses / entry points (run_kinds): rotations, so that every value of every axis occurs in
+    # the quick tier, the axes being out of phase with each other
+    KOBJ = [["rect", "func"], ["func", "rect", "func"], ["rect", "func", "rect"], ["rect", "rect"], ["func"], ["rect"], ["func", "func", "rect"]]
+    CONSTRUCT = ["apply_mask", "masked_arrays", "interface", "apply_mask_twice", "normalized", "from_fits"]
+    ENTRY = ["Inversion", "imaging_from", "class", "positional", "preloads"]
+    for i in range(n_kind):
+        v = {"data_kind": ARRAY_KINDS[i % 6], "noise_kind": ARRAY_KINDS[(i + 2) % 6], "psf_kind": ARRAY_KINDS[(i + 4) % 6],
+             "construct": CONSTRUCT[(i + i // 6) % 6], "entry": ENTRY[i % 5], "sub_struct": i % 2 == 1, "sub_dataset": i % 3 == 1,
+             "sub_settings": i % 3 == 2, "psf_ps": [None, ["3", "1/3"], None, ["1/8", "5"]][(i // 2) % 4], "extra_settings": i % 4 == 3}
+        while True:
+            ds = rand_dataset(rng, 8, None, rng.choice(GEOMS), tight=[None, "h", "w"][i % 3],
+                              noise_choices=[Fraction(1), Fraction(2), Fraction(4)] if v["noise_kind"] == "int" else None)
+            if ds["m"] is not None and (n_unmasked(ds) >= 2 or i % 5 == 4): break
+        if v["construct"] in ("normalized", "from_fits"):
+            # the library's DEFAULT use_normalized_psf=True (Imaging.from_fits has no other): a non-negative kernel, divided by its sum
+            ds["K"] = [[S(x) for x in r] for r in rand_kernel(rng, len(ds["K"]), len(ds["K"][0]), "nonneg")]
+        n = n_unmasked(ds)
+        objs = [rand_obj(rng, n, k) for k in KOBJ[i % len(KOBJ)]]
+        for j, o in enumerate(objs):
+            o["subclass"] = (i + j) % 2 == 0
+            if o["kind"] == "func":
+                o["mkind"] = FUNC_KINDS[(i + j) % len(FUNC_KINDS)]
+                if o["mkind"] in ("int", "float32") and o["ov"] is None and rng.random() < 0.6:
+                    # an operated_mapping_matrix_override of that kind: it reaches the assembly as it is (no convolution in between)
+                    o["ov"] = [[S(rand_vals(rng, False)) for _ in range(o["P"])] for _ in range(n)]
+                if o["mkind"] == "int":      # integral basis functions (rand_vals gives multiples of 1/4)
+                    for key in ("M", "ov"):
+                        if o[key] is not None: o[key] = [[S(Fraction(x) * 4) for x in r] for r in o[key]]
+            if i % 2: o["reg"] = o["reg"] and rng.random() < 0.5
+        yield {"op": "kinds", "ds": ds, "objs": objs, "v": v, "eps": rng.choice(["1/1024", "1/2"]), "rseed": rng.randrange(10 ** 6)}
+    # the preload branches (run_preld)
+    POBJ = [["rect", "func"], ["func", "rect", "func"], ["rect"], ["rect", "func", "rect"], ["rect", "rect"], ["func", "rect"]]
+    for i in range(n_preld):
+        while True:
+            ds = rand_dataset(rng, 8, None, rng.choice(GEOMS))
+            if ds["m"] is not None and n_unmasked(ds) >= 2: break
+        n = n_unmasked(ds)
+        objs = [rand_obj(rng, n, k) for k in POBJ[i % len(POBJ)]]
+        for o in objs:
+            if o["kind"] == "func" and rng.random() < 0.7: o["ov"] = None
+            if i % 2: o["reg"] = o["reg"] and rng.random() < 0.5
+        has_func = any(o["kind"] == "func" for o in objs)
+        if len(objs) == 1: objs[0]["reg"] = True       # a single regularized object: curvature_reg_matrix adds H in place
+        if has_func: combos = [["func_dicts", "mapper_diag"], ["func_dicts", "F"], ["func_dicts", "mapper_diag"], ["B", "mapper_diag"]][i % 4]
+        else: combos = [["mapper_diag", "F"], ["B", "mapper_diag"], ["F", "mapper_diag"]][i % 3]
+        yield {"op": "preld", "ds": ds, "objs": objs, "objs2": [twin_obj(rng, o, n) for o in objs], "combos": combos,
+               "eps": rng.choice(["1/1024", "1/2"]), "rseed": rng.randrange(10 ** 6)}
     for i in range(n_util):
         for op in ("dv_blurred", "curv_mapping", "add_diag", "mirror", "wt", "curv_preload", "off_preload", "dv_wtd",
                    "off_mapper_func", "dlfm", "mapped_unique", "mapped_matrix", "dense_w"):
-            yield {"op": op, "seed": rng.randrange(10 ** 9)}
+            yield {"op": op, "seed": rng.randrange(10 ** 9), "k": i}
 
 # ----------------------------------------------------------------------------- Coq printing
 def cmask(m): return clist([clist([cbool(b) for b in r]) for r in m])
@@ -345,8 +419,10 @@ def build_obj(aa, mask, o, n):
     reg = aa.reg.Constant(coefficient=1.0) if o["reg"] else None
     if o["kind"] == "func":
         grid = aa.Grid2D.from_mask(mask=mask)
-        return aa.m.MockLinearObjFuncList(parameters=o["P"], grid=grid, mapping_matrix=fl(o["M"]), regularization=reg,
-                                          operated_mapping_matrix_override=None if o["ov"] is None else fl(o["ov"])), True
+        cls = subclasses(aa)["func"] if o.get("subclass") else aa.m.MockLinearObjFuncList
+        mk = o.get("mkind", "float")
+        return cls(parameters=o["P"], grid=grid, mapping_matrix=as_kind(fl(o["M"]), mk), regularization=reg,
+                   operated_mapping_matrix_override=None if o["ov"] is None else as_kind(fl(o["ov"]), mk)), True
     rng = random.Random(o["subseed"])
     sub = o["sub"]
     if sub == "mixed": sub = np.array([rng.choice([1, 2, 4]) for _ in range(n)])
@@ -360,14 +436,16 @@ def build_obj(aa, mask, o, n):
     if o["kind"] == "rect":
         mesh = aa.Mesh2DRectangular.overlay_grid(grid=sgrid, shape_native=tuple(o["shape"]))
         mg = aa.MapperGrids(mask=mask, source_plane_data_grid=sgrid, source_plane_mesh_grid=mesh)
-        return aa.MapperRectangular(mapper_grids=mg, over_sampler=over, border_relocator=None, regularization=reg), True
+        cls = subclasses(aa)["rect"] if o.get("subclass") else aa.MapperRectangular
+        return cls(mapper_grids=mg, over_sampler=over, border_relocator=None, regularization=reg), True
     y0, y1, x0, x1 = g2[:, 0].min(), g2[:, 0].max(), g2[:, 1].min(), g2[:, 1].max()
     pts = [[y0 - 0.5, x0 - 0.5], [y0 - 0.5, x1 + 0.5], [y1 + 0.5, x0 - 0.5], [y1 + 0.5, x1 + 0.5]][:rng.choice([0, 4])]
     while len(pts) < o["npts"]:
         pts.append([rng.uniform(y0 - 0.3, y1 + 0.3), rng.uniform(x0 - 0.3, x1 + 0.3)])
     mesh = aa.Mesh2DDelaunay(values=aa.Grid2DIrregular(values=pts))
     mg = aa.MapperGrids(mask=mask, source_plane_data_grid=sgrid, source_plane_mesh_grid=mesh)
-    return aa.MapperDelaunay(mapper_grids=mg, over_sampler=over, border_relocator=None, regularization=reg), False
+    cls = subclasses(aa)["delaunay"] if o.get("subclass") else aa.MapperDelaunay
+    return cls(mapper_grids=mg, over_sampler=over, border_relocator=None, regularization=reg), False
 
 def cobj(aa, lo, o):
     """the Coq view of a linear object, read from the LIVE object (what the inversion is handed), not from its descriptor"""
@@ -428,9 +506,72 @@ def fingerprint(aa, dataset, los, settings, preloads=None, wts=()):
     if preloads is not None:
         for k, v in sorted(vars(preloads).items()):
             if k != "w_tilde": fp["preloads." + k] = digest(v)
+            else: fp["preloads.w_tilde"] = "id:%d" % id(v)       # (its arrays are among [wts])
     return fp
 
 def fp_diff(a, b): return sorted(k for k in a if a[k] != b.get(k))
+
+
+# ----------------------------------------------------------------------------- input kinds, subclasses, shared default objects (f, g)
+def as_kind(a, kind):
+    """the same VALUES handed over as another kind of input: integer-typed / float32 (only where every value is exactly representable,
+    else unchanged), nested Python lists, Fortran-ordered, a strided view into a larger array, a read-only array"""
+    a = np.asarray(a, dtype=float)
+    if kind == "int" and np.all(a == np.round(a)): return a.astype(int)
+    if kind == "float32" and np.array_equal(a.astype(np.float32).astype(float), a): return a.astype(np.float32)
+    if kind == "list": return a.tolist()
+    if kind == "fortran": return np.asfortranarray(a)
+    if kind == "view":
+        big = np.full(tuple(2 * k + 1 for k in a.shape), 7.5)
+        v = big[tuple(slice(1, 2 * k + 1, 2) for k in a.shape)]; v[...] = a
+        return v
+    return a.copy()
+ARRAY_KINDS = ["float", "int", "list", "float32", "fortran", "view"]
+FUNC_KINDS = ["float", "int", "float32", "fortran", "view"]
+
+_SUB = {}
+def subclasses(aa):
+    """trivial subclasses of the accepted classes (dispatch on type(x) instead of isinstance, a registry keyed by class)"""
+    if not _SUB:
+        class SubImaging(aa.Imaging): pass
+        class SubArray2D(aa.Array2D): pass
+        class SubKernel2D(aa.Kernel2D): pass
+        class SubMapperRectangular(aa.MapperRectangular): pass
+        class SubMapperDelaunay(aa.MapperDelaunay): pass
+        class SubFuncList(aa.m.MockLinearObjFuncList): pass
+        class SubSettings(aa.SettingsInversion): pass
+        class SubPreloads(aa.Preloads): pass
+        class SubInterface(aa.DatasetInterface): pass
+        _SUB.update(Imaging=SubImaging, Array2D=SubArray2D, Kernel2D=SubKernel2D, rect=SubMapperRectangular, delaunay=SubMapperDelaunay,
+                    func=SubFuncList, Settings=SubSettings, Preloads=SubPreloads, Interface=SubInterface)
+    return _SUB
+
+def deep_digest(x, depth=0):
+    if isinstance(x, np.ndarray) or hasattr(x, "__array__"): return digest(x)
+    if isinstance(x, dict): return {str(k if isinstance(k, (str, int)) else i): deep_digest(v, depth + 1) for i, (k, v) in enumerate(x.items())}
+    if isinstance(x, (list, tuple)): return [deep_digest(v, depth + 1) for v in x]
+    if hasattr(x, "__dict__") and depth < 3: return {k: deep_digest(v, depth + 1) for k, v in sorted(vars(x).items())}
+    return digest(x)
+
+def default_objects(aa):
+    """the objects created ONCE in the signatures of the anchored functions (settings=SettingsInversion(), preloads=Preloads(),
+    over_sampling=OverSamplingDataset()): shared by every call of the process that leaves the argument out"""
+    from autoarray.inversion.inversion import factory, inversion_util as iu
+    from autoarray.inversion.inversion.abstract import AbstractInversion
+    from autoarray.inversion.inversion.imaging.abstract import AbstractInversionImaging
+    from autoarray.dataset.abstract.dataset import AbstractDataset
+    fns = [factory.inversion_from, factory.inversion_imaging_from, AbstractInversion.__init__, AbstractInversionImaging.__init__,
+           aa.InversionImagingMapping.__init__, aa.InversionImagingWTilde.__init__, iu.curvature_matrix_via_mapping_matrix_from,
+           iu.reconstruction_positive_only_from, aa.Imaging.__init__, aa.Imaging.apply_over_sampling, aa.Imaging.from_fits.__func__,
+           AbstractDataset.__init__]
+    out = {}
+    for f in fns:
+        for k, v in enumerate(getattr(f, "__defaults__", None) or ()):
+            if hasattr(v, "__dict__") and not isinstance(v, type): out[f"{f.__qualname__}#{k}"] = v
+    return out
+
+def defaults_fp(aa):
+    return {k: repr(deep_digest(v)) + "@%d" % id(v) for k, v in default_objects(aa).items()}
 
 QNAMES = {"B": "operated_mapping_matrix", "D": "data_vector", "F": "curvature_matrix", "FR": "curvature_reg_matrix"}
 def rand_reads(rrng):
@@ -476,6 +617,22 @@ def run_inv(aa, inp):
     tally("objs:" + kinds); tally(f"psf:{len(K)}x{len(K[0])}"); tally("signed_psf" if any(v < 0 for r in K for v in r) else "nonneg_psf")
     tally("exact" if exact else "tolerance"); tally("ext:" + str(ext)); tally("geom:" + ("unit" if "ps" not in ds else "x".join(ds["ps"])))
     has_mapper = any(o["kind"] != "func" for o in inp["objs"])
+    # (h) rare states of the assembly, tallied (the evidence shows how often the generators reach them)
+    for lo, o in zip(los, inp["objs"]):
+        if o["kind"] != "func":
+            Mm = np.asarray(lo.mapping_matrix)
+            if np.any(np.all(Mm == 0, axis=0)): tally("state:mapper_pixel_without_data")
+            if lo.params == 1: tally("state:mapper_with_one_pixel")
+            if np.any(np.asarray(lo.unique_mappings.pix_lengths) == 1): tally("state:data_pixel_in_one_source_pixel")
+    un = [(y, x) for y in range(len(m)) for x in range(len(m[0])) if not m[y][x]]
+    in_range = sum(1 for a in range(n) for b in range(a, n) if abs(un[a][0] - un[b][0]) <= 2 * (len(K) // 2) and abs(un[a][1] - un[b][1]) <= 2 * (len(K[0]) // 2))
+    if has_mapper:
+        if int(np.sum(dataset.w_tilde.lengths)) < in_range: tally("state:preload_drops_zero_overlap_inside_range")
+        if np.any(np.asarray(dataset.w_tilde.curvature_preload) < 0): tally("state:negative_overlap_in_preload")
+        if np.any(np.asarray(dataset.w_tilde.lengths) == 0): tally("state:preload_row_empty")
+    kinds_l = [o["kind"] != "func" for o in inp["objs"]]
+    if len(kinds_l) == 3 and kinds_l[0] and not kinds_l[1] and kinds_l[2]: tally("state:function_list_between_two_mappers")
+    if sum(kinds_l) == 3: tally("state:three_mappers")
     rrng = random.Random(inp["rseed"])
     terms, outs, detail = [], {}, {}
     py_ok = True
@@ -569,7 +726,7 @@ def run_sess(aa, inp):
     st = {use: settings_for(aa, use, eps_in) for use in (False, True)}
     terms, outs, detail = [], {}, {}
     py = {"ok": True}
-    def observe(label, dataset, los_, descs, preloads=None, sw=None, wts=(), uses=(False, True)):
+    def observe(label, dataset, los_, descs, preloads=None, sw=None, wts=(), uses=(False, True), defaults=None):
         mq = [[bool(b) for b in r] for r in np.array(dataset.data.mask)]
         Kq = fm(np.array(dataset.convolver.kernel.native))
         d = fv(dataset.data); s = fv(dataset.noise_map); sw_ = s if sw is None else sw
@@ -578,15 +735,24 @@ def run_sess(aa, inp):
             fp0 = fingerprint(aa, dataset, los_, st[use], preloads, wts)
             kw = {} if preloads is None else {"preloads": preloads}
             try:
-                inv = aa.Inversion(dataset=dataset, linear_obj_list=los_, settings=st[use], **kw)
+                if defaults == "factory":
+                    # no settings / preloads argument: the SHARED default objects of the factory's signature
+                    inv = aa.Inversion(dataset=dataset, linear_obj_list=los_)
+                elif defaults == "class":
+                    # the classes themselves without settings / preloads (InversionImagingWTilde: preloads=Preloads() in the signature)
+                    inv = (aa.InversionImagingWTilde(dataset=dataset, w_tilde=dataset.w_tilde, linear_obj_list=los_) if use
+                           else aa.InversionImagingMapping(dataset=dataset, linear_obj_list=los_))
+                else:
+                    inv = aa.Inversion(dataset=dataset, linear_obj_list=los_, settings=st[use], **kw)
                 is_wt = isinstance(inv, aa.InversionImagingWTilde)
                 B, D, F = np.array(inv.operated_mapping_matrix), np.array(inv.data_vector), np.array(inv.curvature_matrix)
                 out = f"(Some ({cqm(fm(B))}, {cqv(fv(D))}, {cqm(fm(F))}))"
                 outs[f"{label}:{use}"] = {"class": type(inv).__name__, "D": D.tolist(), "F": F.tolist()}
             except aa.exc.InversionException as e:
                 is_wt = True; out = "None"; outs[f"{label}:{use}"] = "InversionException"
-            eps = frac(st[use].no_regularization_add_to_curvature_diag_value)
-            terms.append(f"(KInvW {cmask(mq)} {cqm(Kq)} {cqv(d)} {cqv(s)} {cqv(sw_)} {cobjs} {cbool(is_wt)} {cq(eps)} {cq(0)} {out})")
+            eps = frac((aa.SettingsInversion() if defaults else st[use]).no_regularization_add_to_curvature_diag_value)
+            tol_ = Fraction(1, 10 ** 9) if defaults and not all(o["reg"] for o in descs) else Fraction(0)
+            terms.append(f"(KInvW {cmask(mq)} {cqm(Kq)} {cqv(d)} {cqv(s)} {cqv(sw_)} {cobjs} {cbool(is_wt)} {cq(eps)} {cq(tol_)} {out})")
             ch = fp_diff(fp0, fingerprint(aa, dataset, los_, st[use], preloads, wts))
             if ch: py["ok"] = False; detail["inputs_modified:" + label] = ch
             tally("sess:" + label)
@@ -652,6 +818,33 @@ def run_sess(aa, inp):
                 descs.append(o2)
             los_r = [build_obj(aa, mask2, o, n - 1)[0] for o in descs]
             observe("remask", A2, los_r, descs, wts=[A2.w_tilde, wA])
+        elif step == "derived":
+            # (b) the parts of the dataset handed over as DERIVED structures with the same values: copies, deep copies, results of
+            # arithmetic, the slim view of a natively stored array, the slim view of the native view
+            import copy as _copy
+            routes = {"copy": _copy.copy, "deepcopy": _copy.deepcopy, "times_one": lambda a: a * 1.0, "plus_zero": lambda a: a + 0.0,
+                      "native_slim": lambda a: a.native.slim,
+                      "slim_of_stored_native": lambda a: aa.Array2D(values=np.array(a.native), mask=a.mask, store_native=True).slim,
+                      "minus_minus": lambda a: -(-a)}
+            names = sorted(routes); r1, r2 = rrng.choice(names), rrng.choice(names)
+            tally("derived:" + r1); tally("derived:" + r2)
+            DI = aa.DatasetInterface(data=routes[r1](A.data), noise_map=routes[r2](A.noise_map), convolver=A.convolver, w_tilde=A.w_tilde, grids=A.grids)
+            observe("derived", DI, los, objs, wts=[wA])
+            observe("after_derived", A, los, objs, wts=[wA], uses=(True,))
+        elif step == "defaults":
+            # calls that leave settings / preloads out share ONE SettingsInversion() / Preloads() object per signature for the whole
+            # process: first dataset, then another dataset on the same mask (other psf / noise / data), then the first again, through
+            # the factory and through the two classes; nothing of one call may be remembered for the next
+            B2, _ = build_dataset(aa, inp["ds2"])
+            has_mapper = any(o["kind"] != "func" for o in objs)
+            observe("defaults", A, los, objs, wts=[wA], uses=(True,), defaults="factory")
+            observe("defaults_ds2", B2, los, objs, wts=[B2.w_tilde, wA], uses=(True,), defaults="factory")
+            observe("defaults_class", A, los, objs, wts=[wA], uses=(False, True) if has_mapper else (False,), defaults="class")
+            if has_mapper: observe("defaults_class_ds2", B2, los, objs, wts=[B2.w_tilde, wA], uses=(True,), defaults="class")
+            # Imaging.apply_over_sampling() without argument: the shared default OverSamplingDataset() of its signature
+            A6 = A.apply_over_sampling()
+            observe("defaults_over_sampling", A6, los, objs, wts=[A6.w_tilde, wA], uses=(True,), defaults="factory")
+            observe("defaults_again", A, los, objs, wts=[wA], uses=(True,), defaults="factory")
         elif step == "oversampling":
             A4 = A.apply_over_sampling(over_sampling=aa.OverSamplingDataset(uniform=aa.OverSamplingUniform(sub_size=2),
                                                                            pixelization=aa.OverSamplingUniform(sub_size=2)))
@@ -661,27 +854,278 @@ def run_sess(aa, inp):
     return dict(coq=terms[0], extra_coq=terms[1:], out=outs, py_ok=py["ok"], nontrivial=True,
                 kind="sess:" + kinds + ":" + ",".join(inp["steps"]), detail=detail)
 
+
+# ----------------------------------------------------------------------------- input kinds / constructor paths / subclasses / entry points
+def slim_of(ds, key): return [Fraction(ds[key][y][x]) for y in range(len(ds["m"])) for x in range(len(ds["m"][0])) if not ds["m"][y][x]]
+
+def build_dataset_k(aa, ds, v):
+    """the dataset of descriptor [ds] along the constructor path and with the input kinds of the variant [v]"""
+    sub = subclasses(aa)
+    ps, org = geom_of(ds)
+    kps = tuple(float(Fraction(x)) for x in v["psf_ps"]) if v.get("psf_ps") else ps
+    D = as_kind(fl(ds["data"]), v["data_kind"]); N = as_kind(fl(ds["noise"]), v["noise_kind"]); Kk = as_kind(fl(ds["K"]), v["psf_kind"])
+    psf = (sub["Kernel2D"] if v["sub_struct"] else aa.Kernel2D).no_mask(values=Kk, pixel_scales=kps)
+    Icls = sub["Imaging"] if v["sub_dataset"] else aa.Imaging
+    mask = build_mask(aa, ds)
+    c = v["construct"]
+    if c in ("masked_arrays", "interface"):
+        # Imaging made from arrays that carry the mask already (no apply_mask); DatasetInterface carrying its parts
+        Acls = sub["Array2D"] if v["sub_struct"] else aa.Array2D
+        A = Icls(data=Acls(values=D, mask=mask), noise_map=Acls(values=N, mask=mask), psf=psf, use_normalized_psf=False)
+        if c == "interface":
+            DIcls = sub["Interface"] if v["sub_dataset"] else aa.DatasetInterface
+            return DIcls(data=A.data, noise_map=A.noise_map, convolver=A.convolver, w_tilde=A.w_tilde, grids=A.grids), mask
+        return A, mask
+    if c == "from_fits":
+        # the constructor classmethod: three FITS files written by output_to_fits, read back (psf normalized: no other choice there)
+        import tempfile, shutil, os
+        tmp = tempfile.mkdtemp(prefix="c04_fits_")
+        try:
+            A0 = aa.Imaging(data=aa.Array2D.no_mask(values=D, pixel_scales=ps, origin=org), noise_map=aa.Array2D.no_mask(values=N, pixel_scales=ps, origin=org),
+                            psf=psf, use_normalized_psf=False)
+            paths = {k: os.path.join(tmp, k + ".fits") for k in ("data", "noise_map", "psf")}
+            A0.output_to_fits(data_path=paths["data"], psf_path=paths["psf"], noise_map_path=paths["noise_map"], overwrite=True)
+            A = Icls.from_fits(pixel_scales=ps, data_path=paths["data"], noise_map_path=paths["noise_map"], psf_path=paths["psf"])
+        finally: shutil.rmtree(tmp, ignore_errors=True)
+        return A.apply_mask(mask=mask), mask
+    nkw = {} if c == "normalized" else {"use_normalized_psf": False}
+    A = Icls(data=aa.Array2D.no_mask(values=D, pixel_scales=ps, origin=org), noise_map=aa.Array2D.no_mask(values=N, pixel_scales=ps, origin=org),
+             psf=psf, **nkw)
+    if c == "apply_mask_twice":
+        # first ANOTHER mask (every other admissible pixel: some pixels of the real mask are masked in it, others not; its convolver and
+        # w_tilde used), then the real mask: the values must come from the unmasked dataset, not from the first masked one
+        kh, kw = len(ds["K"]), len(ds["K"][0]); H, W = len(ds["m"]), len(ds["m"][0])
+        m1 = [[not (kh // 2 <= y < H - kh // 2 and kw // 2 <= x < W - kw // 2 and (y + x) % 2 == 0) for x in range(W)] for y in range(H)]
+        if all(all(r_) for r_ in m1): m1[kh // 2][kw // 2] = False
+        A = A.apply_mask(mask=build_mask(aa, ds, m1)); A.convolver; A.w_tilde
+    return A.apply_mask(mask=mask), mask
+
+def run_kinds(aa, inp):
+    """letters (f), (g) and the sibling entry points: the same VALUES handed over as other kinds of input (integer / float32 / list /
+    Fortran-ordered / strided arrays for data, noise map, psf, basis functions), through other constructor paths (Imaging from masked
+    arrays, a second apply_mask, DatasetInterface), with trivial SUBCLASSES of Imaging / Array2D / Kernel2D / the mappers / the function
+    list / SettingsInversion / Preloads / DatasetInterface, a psf whose pixel scales differ from the data's, settings fields that only
+    the interferometer classes read switched on, through aa.Inversion (keywords / positional), factory.inversion_imaging_from and the two
+    classes constructed directly; judged on the DESCRIPTOR's values (what the caller wrote down), exactly.  Then, per formalism, the
+    per-object dictionaries for an injected reconstruction: mapped_reconstructed_data_dict[obj_i] = B_i r_i (the model with r restricted
+    to object i), keys in object order, mapped_reconstructed_data / mapped_reconstructed_image = their sum, reconstruction_dict = the
+    slices of r, data_subtracted_dict[obj_i] = data - sum of the OTHER objects' mapped data."""
+    from autoarray.inversion.inversion import factory
+    ds = inp["ds"]; v = inp["v"]; m = ds["m"]; K = [[Fraction(x) for x in r] for r in ds["K"]]
+    sub = subclasses(aa)
+    dataset, mask = build_dataset_k(aa, ds, v)
+    n = int(mask.pixels_in_mask)
+    los = [build_obj(aa, mask, o, n)[0] for o in inp["objs"]]
+    d = slim_of(ds, "data"); s = slim_of(ds, "noise")
+    tol = Fraction(0)
+    if v["construct"] in ("normalized", "from_fits"):
+        # the kernel in force is the descriptor's divided by its sum (doubles): the live kernel, checked against that, enters the model
+        Kl = np.array(dataset.psf.native); Kd = fl(ds["K"])
+        if not np.allclose(Kl, Kd / Kd.sum(), rtol=1e-12, atol=0): raise AssertionError("psf in force is not the normalized kernel")
+        K = fm(Kl); tol = Fraction(1, 10 ** 9)
+    hdr = f"{cmask(m)} {cqm(K)}"
+    cobjs = clist([cobj(aa, lo, o) for lo, o in zip(los, inp["objs"])])
+    has_mapper = any(o["kind"] != "func" for o in inp["objs"])
+    kinds = "+".join(o["kind"] for o in inp["objs"])
+    for k in ("data_kind", "noise_kind", "psf_kind", "construct", "entry"): tally(f"kinds:{k}={v[k]}")
+    for k in ("sub_struct", "sub_dataset", "sub_settings", "psf_ps", "extra_settings"):
+        if v.get(k): tally(f"kinds:{k}")
+    terms, outs, detail = [], {}, {}
+    py_ok = True
+    rrng = random.Random(inp["rseed"])
+    Scls = sub["Settings"] if v["sub_settings"] else aa.SettingsInversion
+    r = None
+    for use in (False, True):
+        kw = dict(use_w_tilde=use, use_positive_only_solver=False, no_regularization_add_to_curvature_diag_value=float(Fraction(inp["eps"])))
+        if v.get("extra_settings"): kw.update(use_w_tilde_numpy=True, use_source_loop=True, use_linear_operators=True)
+        st = Scls(**kw)
+        fp0 = fingerprint(aa, dataset, los, st, wts=[dataset.w_tilde])
+        e = v["entry"]
+        if e == "imaging_from": inv = factory.inversion_imaging_from(dataset=dataset, linear_obj_list=los, settings=st)
+        elif e == "class":
+            inv = (aa.InversionImagingWTilde(dataset=dataset, w_tilde=dataset.w_tilde, linear_obj_list=los, settings=st) if use and has_mapper
+                   else aa.InversionImagingMapping(dataset=dataset, linear_obj_list=los, settings=st))
+        elif e == "positional": inv = aa.Inversion(dataset, los, st)
+        elif e == "preloads": inv = aa.Inversion(dataset=dataset, linear_obj_list=los, settings=st, preloads=sub["Preloads"]())
+        else: inv = aa.Inversion(dataset=dataset, linear_obj_list=los, settings=st)
+        is_wt = isinstance(inv, aa.InversionImagingWTilde)
+        tally("class_as_modelled" if is_wt == (use and has_mapper) else "class_differs_from_model")
+        B, D, F = np.array(inv.operated_mapping_matrix), np.array(inv.data_vector), np.array(inv.curvature_matrix)
+        eps = Fraction(inp["eps"])
+        terms.append(f"(KInv {hdr} {cqv(d)} {cqv(s)} {cobjs} {cbool(is_wt)} {cq(eps)} {cq(tol)} {cqm(fm(B))} {cqv(fv(D))} {cqm(fm(F))})")
+        # the per-object views of one injected reconstruction
+        P = B.shape[1]
+        if r is None: r = [Fraction(2 * rrng.randint(-9, 8) + 1, 8) for _ in range(P)]      # odd eighths: an integer-typed buffer truncates
+        inv.__dict__["reconstruction"] = flv(r)
+        dct = inv.mapped_reconstructed_data_dict
+        if [id(k) for k in dct.keys()] != [id(lo) for lo in los]: py_ok = False; detail[f"dict_keys:{use}"] = "not the objects in order"
+        rd = inv.reconstruction_dict
+        parts, start = [], 0
+        for i, lo in enumerate(los):
+            ri = [x if start <= j < start + lo.params else Fraction(0) for j, x in enumerate(r)]
+            part = np.array(dct[lo]); parts.append(part)
+            terms.append(f"(KMapped {hdr} {cnat(n)} {cobjs} {cbool(is_wt)} {cq(tol)} {cqv(ri)} {cqv(fv(part))})")
+            if not np.array_equal(np.array(rd[lo]), flv(r[start:start + lo.params])): py_ok = False; detail[f"reconstruction_dict:{use}"] = i
+            start += lo.params
+        total = np.array(inv.mapped_reconstructed_data)
+        if not close(total, sum(parts), 1e-12): py_ok = False; detail[f"mapped_sum:{use}"] = "mapped_reconstructed_data is not the sum of the dict"
+        if not close(np.array(inv.mapped_reconstructed_image), sum(parts), 1e-12): py_ok = False; detail[f"mapped_image:{use}"] = "differs"
+        dsub = inv.data_subtracted_dict
+        for i, lo in enumerate(los):
+            want = flv(d) - sum([p_ for j, p_ in enumerate(parts) if j != i], np.zeros(n))
+            if not close(np.array(dsub[lo]), want, 1e-12): py_ok = False; detail[f"data_subtracted:{use}"] = i
+        ch = fp_diff(fp0, fingerprint(aa, dataset, los, st, wts=[dataset.w_tilde]))
+        if ch: py_ok = False; detail[f"inputs_modified:{use}"] = ch
+        outs[str(use)] = {"class": type(inv).__name__, "D": D.tolist(), "F": F.tolist()}
+    nontrivial = n >= 2 and sum(1 for r_ in K for x in r_ if x != 0) > 1
+    return dict(coq=terms[0], extra_coq=terms[1:], out=outs, py_ok=py_ok, nontrivial=nontrivial, kind="kinds:" + kinds, detail=detail)
+
+# ----------------------------------------------------------------------------- the preload branches of the two classes
+PRELD_COMBOS = ["B", "F", "func_dicts", "mapper_diag"]
+def preload_arrays(pl):
+    out = {}
+    for k, v in sorted(vars(pl).items()):
+        if v is None or k in ("w_tilde", "use_w_tilde"): continue
+        if isinstance(v, dict):
+            for i, a in enumerate(v.values()): out[f"preloads.{k}[{i}]"] = digest(a)
+        else: out["preloads." + k] = digest(v)
+    return out
+
+def run_preld(aa, inp):
+    """the branches of the two classes that take a quantity from the Preloads object instead of computing it (anchored
+    w_tilde.py / mapping.py / abstract.py), used as the library uses them: the quantities come from a first inversion (inversion_0) on the
+    same dataset, the second inversion has the same linear objects -- or, for the mapper-only preloads (curvature_matrix_mapper_diag,
+    data_vector_mapper, mapper_operated_mapping_matrix_dict), the same mappers and OTHER function lists.  The result must still be
+    the normal equations of the objects passed in (KInv, exact); curvature_reg_matrix (added in place into the instance's array) must
+    not reach the preloaded arrays; a second instance with the SAME Preloads object returns the same values."""
+    ds = inp["ds"]; m = ds["m"]; K = [[Fraction(x) for x in r] for r in ds["K"]]
+    A, mask = build_dataset(aa, ds); n = int(mask.pixels_in_mask)
+    objs = inp["objs"]; los = [build_obj(aa, mask, o, n)[0] for o in objs]
+    objs2 = [o if o["kind"] != "func" else o2 for o, o2 in zip(objs, inp["objs2"])]
+    los2 = [lo if o["kind"] != "func" else build_obj(aa, mask, o2, n)[0] for lo, o, o2 in zip(los, objs, inp["objs2"])]
+    d = fv(A.data); s = fv(A.noise_map); hdr = f"{cmask(m)} {cqm(K)}"
+    eps = Fraction(inp["eps"])
+    has_func = any(o["kind"] == "func" for o in objs)
+    terms, outs, detail = [], {}, {}
+    py_ok = True
+    for use in (False, True):
+        st = settings_for(aa, use, inp["eps"])
+        inv0 = aa.Inversion(dataset=A, linear_obj_list=los, settings=st)
+        for combo in inp["combos"]:
+            los_x, descs_x = los, objs
+            if combo == "B": kw = dict(operated_mapping_matrix=inv0.operated_mapping_matrix)
+            elif combo == "F": kw = dict(curvature_matrix=np.array(inv0.curvature_matrix))
+            elif combo == "func_dicts":
+                if not has_func: continue
+                kw = dict(linear_func_operated_mapping_matrix_dict=inv0.linear_func_operated_mapping_matrix_dict,
+                          data_linear_func_matrix_dict=inv0.data_linear_func_matrix_dict)
+            else:
+                kw = dict(mapper_operated_mapping_matrix_dict=inv0.mapper_operated_mapping_matrix_dict,
+                          data_vector_mapper=inv0._data_vector_mapper, curvature_matrix_mapper_diag=inv0._curvature_matrix_mapper_diag)
+                los_x, descs_x = los2, objs2
+            pl = aa.Preloads(**kw)
+            tally(f"preld:{combo}:{'wtilde' if use else 'mapping'}")
+            cobjs = clist([cobj(aa, lo, o) for lo, o in zip(los_x, descs_x)])
+            def fp():
+                f_ = fingerprint(aa, A, los_x, st, pl, wts=[A.w_tilde]); f_.update(preload_arrays(pl))
+                # (the w-tilde class writes the function lists' blocks into the preloaded data_vector_mapper: the mapper blocks must stay)
+                f_.pop("preloads.data_vector_mapper", None)
+                return f_
+            fp0 = fp()
+            inv = aa.Inversion(dataset=A, linear_obj_list=los_x, settings=st, preloads=pl)
+            is_wt = isinstance(inv, aa.InversionImagingWTilde)
+            B, D, F = np.array(inv.operated_mapping_matrix), np.array(inv.data_vector), np.array(inv.curvature_matrix)
+            terms.append(f"(KInv {hdr} {cqv(d)} {cqv(s)} {cobjs} {cbool(is_wt)} {cq(eps)} {cq(0)} {cqm(fm(B))} {cqv(fv(D))} {cqm(fm(F))})")
+            inv.curvature_reg_matrix
+            try: inv.reconstruction
+            except Exception: pass
+            invb = aa.Inversion(dataset=A, linear_obj_list=los_x, settings=st, preloads=pl)
+            invb.curvature_reg_matrix
+            if not (np.array_equal(np.array(invb.data_vector), D) and np.array_equal(np.array(invb.curvature_matrix), F)
+                    and np.array_equal(np.array(invb.operated_mapping_matrix), B)):
+                py_ok = False; detail[f"second_use_of_preloads:{combo}:{use}"] = "differs from the first"
+            ch = fp_diff(fp0, fp())
+            if ch: py_ok = False; detail[f"inputs_modified:{combo}:{use}"] = ch
+            outs[f"{combo}:{use}"] = {"class": type(inv).__name__, "D": D.tolist(), "F": F.tolist()}
+    kinds = "+".join(o["kind"] for o in objs)
+    return dict(coq=terms[0], extra_coq=terms[1:], out=outs, py_ok=py_ok, nontrivial=True, kind="preld:" + kinds + ":" + ",".join(inp["combos"]), detail=detail)
+
 # ----------------------------------------------------------------------------- cases
 def run_case(inp):
     aa = import_aa()
     op = inp["op"]
-    if op == "inv": return run_inv(aa, inp)
-    if op == "sess": return run_sess(aa, inp)
-    return run_util(aa, inp)
+    # (g) the shared default argument objects of the anchored signatures, fingerprinted around every case
+    fp0 = defaults_fp(aa)
+    if op == "inv": r = run_inv(aa, inp)
+    elif op == "sess": r = run_sess(aa, inp)
+    elif op == "kinds": r = run_kinds(aa, inp)
+    elif op == "preld": r = run_preld(aa, inp)
+    else: r = run_util(aa, inp)
+    ch = fp_diff(fp0, defaults_fp(aa))
+    if ch:
+        r["py_ok"] = False; r["detail"] = dict(r.get("detail") or {}, default_objects_modified=ch)
+    return r
 
 def small_dataset(rng):
     while True:
         ds = rand_dataset(rng, 9)
         if ds["m"] is not None: return ds
 
+UTIL_INPLACE = {("curvature_matrix_with_added_to_diag_from", "curvature_matrix")}    # documented in-place update of the argument
+class KindedModule:
+    """proxy of a util module (letters d, f): every array argument of every call is handed over as a randomly chosen KIND with the same
+    values -- float64 copy, integer-typed where every value is integral (a result buffer that inherits the argument's dtype
+    truncates), int32 indices, Fortran-ordered, a strided view into a larger array -- READ-ONLY (a function that writes into its
+    argument raises) and fingerprinted before and after the call"""
+    def __init__(self, mod, rng, flags, prefer_int=False): self._mod, self._rng, self._flags, self._int = mod, rng, flags, prefer_int
+    def _vary(self, fname, k, a):
+        if not isinstance(a, np.ndarray) or (fname, k) in UTIL_INPLACE: return a
+        if a.dtype.kind == "f": b = as_kind(a, "int" if self._int else self._rng.choice(["float", "int", "fortran", "view"]))
+        elif a.dtype.kind in "iu":
+            kind = self._rng.choice(["same", "int32", "view"])
+            if kind == "int32": b = a.astype(np.int32)
+            elif kind == "view":
+                big = np.full(tuple(2 * n_ + 1 for n_ in a.shape), -3, dtype=a.dtype)
+                b = big[tuple(slice(1, 2 * n_ + 1, 2) for n_ in a.shape)]; b[...] = a
+            else: b = a.copy()
+        else: return a
+        tally("util_arg_kind:" + ("int" if b.dtype.kind in "iu" and a.dtype.kind == "f" else "other"))
+        b.setflags(write=False)
+        return b
+    def __getattr__(self, name):
+        fn = getattr(self._mod, name)
+        if not callable(fn): return fn
+        def call(**kw):
+            kw2 = {k: self._vary(name, k, a) for k, a in kw.items()}
+            before = {k: digest(a) for k, a in kw2.items() if isinstance(a, np.ndarray) and (name, k) not in UTIL_INPLACE}
+            out = fn(**kw2)
+            ch = [k for k, h_ in before.items() if digest(kw2[k]) != h_]
+            if ch: self._flags.append(f"{name} modified its argument(s) {ch}")
+            return out
+        return call
+
 def run_util(aa, inp):
+    flags = []
+    r = run_util_(aa, inp, flags)
+    if flags: r["py_ok"] = False; r["detail"] = {"arguments": flags}
+    return r
+
+def run_util_(aa, inp, flags):
     from autoarray.inversion.inversion import inversion_util as iu
     from autoarray.inversion.inversion.imaging import inversion_imaging_util as iiu
+    krng = random.Random(inp["seed"] + 977)
+    # every other round: integral matrices handed over integer-typed wherever possible (the informative kind), else random kinds
+    prefer_int = inp.get("k", 1) % 2 == 0
+    iu = KindedModule(iu, krng, flags, prefer_int); iiu = KindedModule(iiu, krng, flags, prefer_int)
     op = inp["op"]; rng = random.Random(inp["seed"])
     base = dict(py_ok=None, nontrivial=True, kind="util:" + op)
     tally("util:" + op)
     Z0 = Fraction(0)
-    def rmat(n, p, sparse=True): return [[rand_vals(rng, sparse) for _ in range(p)] for _ in range(n)]
+    def rmat(n, p, sparse=True):
+        M = [[rand_vals(rng, sparse) for _ in range(p)] for _ in range(n)]
+        # integral throughout in every other round (and now and then otherwise), so that the integer-typed kind of the argument (KindedModule) is often possible
+        if prefer_int or krng.random() < 0.2: M = [[Fraction(round(x)) for x in r] for r in M]
+        return M
     def rnoise(n): return [rng.choice(NOISE) for _ in range(n)]
     def enc_arrays(e):
         return (np.array(e["du"], dtype=int).reshape(len(e["du"]), -1), fl(e["dw"]).reshape(len(e["dw"]), -1), np.array(e["pl"], dtype=int))
